@@ -23,23 +23,32 @@ START = 7
 
 
 def scenarios():
+    """name -> (ETH path, kind, oSQTH/ETH mark multiplier path or None, bar minutes)"""
     flat = [Decimal(2000)] * N
 
     def step(f, at=8):
         return [Decimal(2000) if i < at else Decimal(2000) * Decimal(str(f)) for i in range(N)]
     return {
-        "flat": (flat, "eq"),
-        "step+2%": (step("1.02"), "eq"),
-        "step+30%": (step("1.3"), "eq"),
-        "step+150%": (step("2.5"), "eq"),
-        "ramp+4%/bar": ([Decimal(2000) * Decimal("1.04") ** max(0, i - 6) for i in range(N)], "eq"),
-        "spike-then-back": ([Decimal(2000) if i != 8 else Decimal(5200) for i in range(N)], "eq"),
-        "ne-step+30%": (step("1.3"), "ne"),
-        "down-20%": (step("0.8"), "eq"),
+        "flat": (flat, "eq", None, 1),
+        "step+2%": (step("1.02"), "eq", None, 1),
+        "step+30%": (step("1.3"), "eq", None, 1),
+        "step+150%": (step("2.5"), "eq", None, 1),
+        "ramp+4%/bar": ([Decimal(2000) * Decimal("1.04") ** max(0, i - 6) for i in range(N)], "eq", None, 1),
+        "spike-then-back": ([Decimal(2000) if i != 8 else Decimal(5200) for i in range(N)], "eq", None, 1),
+        "ne-step+30%": (step("1.3"), "ne", None, 1),
+        "down-20%": (step("0.8"), "eq", None, 1),
+        # the pool's oSQTH/ETH mark jumps x2.5 with ETH +40%: liquidation pays at a mark far above the index, vaults end up under water
+        "mark-x2.5": (step("1.4"), "eq", [1 if i < 8 else 2.5 for i in range(N)], 1),
+        "mark-x1.6-ramp": ([Decimal(2000) * Decimal("1.06") ** max(0, i - 6) for i in range(N)], "eq", [1.0 if i < 8 else 1.6 for i in range(N)], 1),
+        # five-minute bars (data resampled by the markets' own _resample): the seven-minute window holds two rows, not seven
+        "5min-ramp+3%": ([Decimal(2000) * Decimal("1.03") ** max(0, i - 3) for i in range(N)], "eq", None, 5),
+        "5min-step+30%": (step("1.3", at=5), "eq", None, 5),
     }
 
 
 def make_world(scn, start=START):
+    import math
+
     import pandas as pd
     from demeter._typing import USD
     from mc.worlds import squeeth as sq
@@ -48,23 +57,36 @@ def make_world(scn, start=START):
     from mc.worlds.kit import Ctx
     from demeter.squeeth.helper import get_price_from_data
 
-    eth, kind = scenarios()[scn]
+    eth_bars, kind, mark_mult, bar_minutes = scenarios()[scn]
     p = sq.pool()
+    n_raw = N * bar_minutes
+    eth = [eth_bars[i // bar_minutes] for i in range(n_raw)]
     if kind == "eq":
-        ticks = [sq.TICK0] * N
+        ticks = [sq.TICK0] * n_raw
     else:
-        ticks = [sq.TICK0 + 60 * ((i * 7) % 5 - 2) for i in range(N)]
+        ticks = [sq.TICK0 + 60 * (((i // bar_minutes) * 7) % 5 - 2) for i in range(n_raw)]
+    if mark_mult is not None:
+        # price of oSQTH in ETH is 1.0001^-tick: a multiplier m moves the tick by -ln(m)/ln(1.0001), kept on the spacing grid
+        ticks = [t - 60 * round(math.log(float(mark_mult[i // bar_minutes])) / math.log(1.0001) / 60) for i, t in enumerate(ticks)]
     raw = uni.raw_frame(ticks, 2 * 10**18, 15 * 10**18, 5 * 10**21, open_tick=ticks[0])
     udata = uni.prepared(raw, p)
     osqth_eth = list(udata["price"])
     if kind == "eq":
-        nf = [o * Decimal(10**4) / Decimal(2000) for o in osqth_eth]  # mark = index while ETH is at 2000
+        nf = [osqth_eth[0] * Decimal(10**4) / Decimal(2000)] * n_raw  # mark = index while ETH is at 2000 and the mark has not jumped
     else:
-        nf = [Decimal("0.46") - Decimal("0.0003") * i for i in range(N)]
+        nf = [Decimal("0.46") - Decimal("0.0003") * (i // bar_minutes) for i in range(n_raw)]
     sdata = pd.DataFrame(index=udata.index, data={"norm_factor": nf, "WETH": eth, "OSQTH": osqth_eth})
     prices = get_price_from_data(sdata).map(lambda y: y if isinstance(y, Decimal) else Decimal(str(y)))
     prices["USD"] = Decimal(1)
+    if bar_minutes > 1:
+        um0, sm0 = sq.make_markets(udata, sdata)
+        um0._resample(f"{bar_minutes}min")  # repository code, as Actuator.switch_interval applies it
+        sm0._resample(f"{bar_minutes}min")
+        udata, sdata = um0.data, sm0.data
+        prices = prices.resample(f"{bar_minutes}min").first()
     ranges = {"in": (sq.TICK0 - 1200, sq.TICK0 + 1200), "lo": (sq.TICK0 - 6000, sq.TICK0 - 3000), "hi": (sq.TICK0 + 3000, sq.TICK0 + 6000)}
+    if bar_minutes > 1:
+        start = min(start, 3)
 
     def build():
         um, sm = sq.make_markets(udata, sdata)
@@ -417,7 +439,7 @@ def run_partition(args):
 def main(run: Run):
     depth = run.pick(3, 4)
     max_dev = run.pick(2, 3)
-    scns = list(scenarios()) if run.thorough else ["flat", "step+2%", "step+30%", "step+150%", "ne-step+30%", "spike-then-back"]
+    scns = list(scenarios()) if run.thorough else ["flat", "step+2%", "step+30%", "step+150%", "ne-step+30%", "mark-x2.5", "5min-ramp+3%"]
     jobs = []
     for scn in scns:
         for start in ((START, 2) if scn in ("step+30%", "flat") else (START,)):
